@@ -11,6 +11,7 @@ import (
 	"io"
 	"net/http"
 	"os"
+	"runtime"
 	"strconv"
 	"strings"
 	"sync"
@@ -146,6 +147,12 @@ func init() {
 	}
 	var mu sync.Mutex
 	CrashFn = func(point string) {
+		if point == "copy.burst" && calledFrom("readLocalFile") {
+			// copying an object out to the working tree or to Git: told
+			// apart by the caller's own stack, because transfers and
+			// check-out run concurrently in one process
+			point = "output.burst"
+		}
 		mu.Lock()
 		defer mu.Unlock()
 		f, err := os.OpenFile(logPath, os.O_APPEND|os.O_CREATE|os.O_RDWR, 0644)
@@ -168,6 +175,23 @@ func init() {
 		}
 	}
 	WrapReaderFn = func(r io.Reader) io.Reader { return &crashReader{r} }
+}
+
+// calledFrom reports whether a function whose name ends in fn is on the
+// calling goroutine's stack.
+func calledFrom(fn string) bool {
+	pcs := make([]uintptr, 48)
+	n := runtime.Callers(3, pcs)
+	frames := runtime.CallersFrames(pcs[:n])
+	for {
+		f, more := frames.Next()
+		if strings.HasSuffix(f.Function, "."+fn) {
+			return true
+		}
+		if !more {
+			return false
+		}
+	}
 }
 
 type crashReader struct{ r io.Reader }
